@@ -214,9 +214,11 @@ func (g *graphMemoizer) Objects(ctx context.Context, s *node.Node, p *predicate.
 		}
 	}
 	wg.Wait()
-	g.mu.Lock()
-	g.memO[k] = mobjs
-	g.mu.Unlock()
+	if err == nil {
+		g.mu.Lock()
+		g.memO[k] = mobjs
+		g.mu.Unlock()
+	}
 	return err
 }
 
@@ -283,9 +285,11 @@ func (g *graphMemoizer) Subjects(ctx context.Context, p *predicate.Predicate, o 
 		}
 	}
 	wg.Wait()
-	g.mu.Lock()
-	g.memN[k] = msubs
-	g.mu.Unlock()
+	if err == nil {
+		g.mu.Lock()
+		g.memN[k] = msubs
+		g.mu.Unlock()
+	}
 	return err
 }
 
@@ -342,9 +346,11 @@ func (g *graphMemoizer) PredicatesForSubject(ctx context.Context, s *node.Node, 
 		}
 	}
 	wg.Wait()
-	g.mu.Lock()
-	g.memP[k] = mpreds
-	g.mu.Unlock()
+	if err == nil {
+		g.mu.Lock()
+		g.memP[k] = mpreds
+		g.mu.Unlock()
+	}
 	return err
 }
 
@@ -401,9 +407,11 @@ func (g *graphMemoizer) PredicatesForObject(ctx context.Context, o *triple.Objec
 		}
 	}
 	wg.Wait()
-	g.mu.Lock()
-	g.memP[k] = mpreds
-	g.mu.Unlock()
+	if err == nil {
+		g.mu.Lock()
+		g.memP[k] = mpreds
+		g.mu.Unlock()
+	}
 	return err
 }
 
@@ -460,9 +468,11 @@ func (g *graphMemoizer) PredicatesForSubjectAndObject(ctx context.Context, s *no
 		}
 	}
 	wg.Wait()
-	g.mu.Lock()
-	g.memP[k] = mpreds
-	g.mu.Unlock()
+	if err == nil {
+		g.mu.Lock()
+		g.memP[k] = mpreds
+		g.mu.Unlock()
+	}
 	return err
 }
 
@@ -519,9 +529,11 @@ func (g *graphMemoizer) TriplesForSubject(ctx context.Context, s *node.Node, lo 
 		}
 	}
 	wg.Wait()
-	g.mu.Lock()
-	g.memT[k] = mts
-	g.mu.Unlock()
+	if err == nil {
+		g.mu.Lock()
+		g.memT[k] = mts
+		g.mu.Unlock()
+	}
 	return err
 }
 
@@ -578,9 +590,11 @@ func (g *graphMemoizer) TriplesForPredicate(ctx context.Context, p *predicate.Pr
 		}
 	}
 	wg.Wait()
-	g.mu.Lock()
-	g.memT[k] = mts
-	g.mu.Unlock()
+	if err == nil {
+		g.mu.Lock()
+		g.memT[k] = mts
+		g.mu.Unlock()
+	}
 	return err
 }
 
@@ -637,9 +651,11 @@ func (g *graphMemoizer) TriplesForObject(ctx context.Context, o *triple.Object, 
 		}
 	}
 	wg.Wait()
-	g.mu.Lock()
-	g.memT[k] = mts
-	g.mu.Unlock()
+	if err == nil {
+		g.mu.Lock()
+		g.memT[k] = mts
+		g.mu.Unlock()
+	}
 	return err
 }
 
@@ -696,9 +712,11 @@ func (g *graphMemoizer) TriplesForSubjectAndPredicate(ctx context.Context, s *no
 		}
 	}
 	wg.Wait()
-	g.mu.Lock()
-	g.memT[k] = mts
-	g.mu.Unlock()
+	if err == nil {
+		g.mu.Lock()
+		g.memT[k] = mts
+		g.mu.Unlock()
+	}
 	return err
 }
 
@@ -755,9 +773,11 @@ func (g *graphMemoizer) TriplesForPredicateAndObject(ctx context.Context, p *pre
 		}
 	}
 	wg.Wait()
-	g.mu.Lock()
-	g.memT[k] = mts
-	g.mu.Unlock()
+	if err == nil {
+		g.mu.Lock()
+		g.memT[k] = mts
+		g.mu.Unlock()
+	}
 	return err
 }
 
@@ -829,8 +849,10 @@ func (g *graphMemoizer) Triples(ctx context.Context, lo *storage.LookupOptions, 
 		}
 	}
 	wg.Wait()
-	g.mu.Lock()
-	g.memT[k] = mts
-	g.mu.Unlock()
+	if err == nil {
+		g.mu.Lock()
+		g.memT[k] = mts
+		g.mu.Unlock()
+	}
 	return err
 }
